@@ -96,13 +96,13 @@ Definition start (p : prog) : thread :=
               | _ => SLookup
               end).
 
-(** db.createDefaultMailboxes, the five rows of an empty table (rowids 1..5) *)
+(** db.createDefaultMailboxes on an empty mailboxes table: five rows, each
+    stamped by the UIDVALIDITY allocator (clock [t], but above everything the
+    store handed out before: t, t+1, ...) — the steps of five
+    CreateMailboxPerUser calls, inside one transaction *)
 Definition add_defaults (s : store) (t : Z) : store :=
-  mkStore [mkMbox 1 INBOX t 1; mkMbox 2 (S_ "Sent") t 1; mkMbox 3 (S_ "Drafts") t 1;
-           mkMbox 4 (S_ "Trash") t 1; mkMbox 5 SPAM t 1]
-          (links s) (next_msg s) (glog s)
-          (gused s ++ [(INBOX, t); (S_ "Sent", t); (S_ "Drafts", t); (S_ "Trash", t); (SPAM, t)])
-          (gser s).
+  create_or_same (create_or_same (create_or_same (create_or_same (create_or_same s
+    INBOX t) (S_ "Sent") t) (S_ "Drafts") t) (S_ "Trash") t) SPAM t.
 
 (** where a first-contact thread goes once the store is open *)
 Definition after_init (p : prog) : tstate :=
@@ -347,8 +347,6 @@ Definition eval_gated (k : gated_case) : Z * Z * list Z * Z :=
     sessions, a micro schedule.  Result: reply codes, number of mailbox rows,
     uid_next of INBOX, number of messages in INBOX, 1 iff their uids are
     1..n without gap or repetition. *)
-Definition empty_store : store := mkStore [] [] 1 [] [] 1.
-
 Definition eval_first (k : list prog * list tid) : list Z * Z * Z * Z * Z :=
   let '(ps, sch) := k in
   let c := run_sched sch (init_cfg empty_store ps) in
